@@ -455,6 +455,25 @@ func Yield(site string) {
 
 func yieldEnabled() bool { return true }
 
+// AwaitTimers blocks the caller until every pending timer (deadline) has fired: the caller is not idle, so the
+// execution becomes quiescent and the timers fire one after the other, earliest first.
+//
+//go:norace
+func AwaitTimers() {
+	x := e
+	if x == nil || x.dead {
+		return
+	}
+	Point("await-timers", func() bool {
+		for _, tm := range x.timers {
+			if !tm.dead {
+				return false
+			}
+		}
+		return true
+	})
+}
+
 // WaitIdle blocks the caller until no other thread is enabled.
 //
 //go:norace
